@@ -3,7 +3,8 @@
 verus! {
 //@ include prelude/base.rs
 //@ include prelude/std_assumed.rs
-//@ shims delta format
+//@ include prelude/state.rs
+//@ shims delta format merge_conflict grep config
 //@ broadcast vax::vax_group axiom_cow_ref_str
 #[verifier::external_body]
 pub struct Config { _p: u8 }
@@ -11,6 +12,8 @@ pub struct Config { _p: u8 }
 //@ type src/format.rs Placeholder noderive
 //@ type src/format.rs FormatStringPlaceholderDataAnyPlaceholder keep=placeholder,precision noderive
 pub type FormatStringPlaceholderData<'a> = FormatStringPlaceholderDataAnyPlaceholder<Placeholder<'a>>;
+pub type FormatStringSimple = FormatStringPlaceholderDataAnyPlaceholder<()>;
+//@ type src/handlers/blame.rs BlameLineNumbers noderive
 
 /// `format::pad` (Display with width, alignment and precision): the padded / cut text; uninterpreted
 pub uninterp spec fn pad_spec(s: Seq<char>, width: usize, alignment: Align, precision: Option<usize>) -> Seq<char>;
@@ -77,6 +80,32 @@ pub fn verif_is_previous_key(previous_key: &Option<String>, key: &String) -> (r:
 //@before <<<let key = formatted_blame_metadata.clone();>>>| let mut formatted_blame_metadata = metadata;
 //@rewrite <<<previous_key.as_deref() == Some(&key)>>> => <<<verif_is_previous_key(&previous_key, &key)>>>
 //@rewrite <<<" ".repeat(>>> => <<<verif_blanks(>>>
+
+// handle_blame_line: what is remembered of a line for the next one
+//@ region src/handlers/blame.rs StateMachine::handle_blame_line
+//@sig pub fn blame_state_after_a_line_region(key: String, formatted_blame_metadata: String) -> (r: State)
+//@from <<<self.state = State::Blame(>>>
+//@until <<<self.painter.syntax_highlight_and_paint_line(>>>
+//@tail verif_state
+//@| ensures r == State::Blame(key),  // @C17:the.state.remembers.the.attribution.of.the.line.not.what.was.displayed.for.it.a.blank.block.on.a.repeat
+//@rewrite <<<self.state = State::Blame(>>> => <<<let verif_state = State::Blame(>>>
+
+// format_blame_line_number: when the number of a line is left blank
+pub open spec fn number_blank(format: &BlameLineNumbers, line_number: usize, is_repeat: bool) -> bool {
+    match *format {
+        BlameLineNumbers::On(_) => false,
+        BlameLineNumbers::PerBlock(_) => is_repeat,
+        BlameLineNumbers::Every(n, _) => is_repeat && line_number % n != 0,
+    }
+}
+//@ region src/handlers/blame.rs format_blame_line_number
+//@sig pub fn blame_number_blank_region(format: &BlameLineNumbers, line_number: usize, is_repeat: bool) -> (r: bool)
+//@from <<<let (format, empty) = match &format {>>>
+//@until <<<let mut result = String::new();>>>
+//@tail empty
+//@| requires *format matches BlameLineNumbers::Every(n, _) ==> n > 0,  // (parse_blame_line_numbers builds `Every(n, _)` only for n > 1)
+//@| ensures r == number_blank(format, line_number, is_repeat),  // @C17:the.number.of.a.line.is.left.blank.only.on.a.line.that.repeats.the.commit.above.and.in.every.N.mode.not.on.multiples.of.N
+//@|         !is_repeat ==> !r,  // @C17:the.first.line.of.a.block.always.shows.its.number
 
 } // verus!
 fn main() {}
